@@ -39,6 +39,7 @@ class Recorder:
         self.hi = max_coord if max_coord is not None else hi + 2
         self.keys = [k for k in ABS_KEYS]
         self.seen_states = set()
+        self.hists = []    # operation + query history behind every record (for replays)
 
     def _anchors(self, env, x, offset_based):
         """coordinates worth querying around (choice of queries only; never part of a verdict)"""
@@ -105,6 +106,8 @@ class Recorder:
 
     def ask(self, env, f, x, q, point):
         """one lookup through the public API -> answer in spec vocabulary"""
+        if hasattr(env, "history"):
+            env.history.append({"name": "query", "f": f, "x": x, "q": list(q), "point": bool(point)})
         o = env.obj[x]
         if f in ("section_address", "section_size"):
             v = o.address if f == "section_address" else o.size
@@ -153,6 +156,7 @@ class Recorder:
             if e["ans"] and e["ans"] != [NOADDR] and e["ans"] != [False]:
                 self.nonempty += 1
         st = env.project(self.keys)
+        self.hists.append(list(getattr(env, "history", [])))
         rec = {"st": st, "q": qs, "base": str(env.base)}
         self.fh.write(json.dumps(rec, separators=(",", ":")) + "\n")
         self.n_records += 1
@@ -172,10 +176,12 @@ def run_judge(name, consts, path, *, chunks=8, timeout=3000):
     import concurrent.futures as cf
     chunks = max(1, min(chunks, len(lines) // 200 + 1))
     parts = [lines[i::chunks] for i in range(chunks)]
+    index = [list(range(i, len(lines), chunks)) for i in range(chunks)]
     mod, files, cfg = configs.render(name + "_judge", consts=consts, invariants=["Judge"], view=False,
                                      extends="GtirbJudge", spec="JSpec", postcondition="Done")
 
-    def one(part):
+    def one(pi):
+        part, ixs = parts[pi], index[pi]
         wd = workdir("gtirbverif-judgein-")
         p = os.path.join(wd, "part.ndjson")
         with open(p, "w") as fh:
@@ -187,13 +193,14 @@ def run_judge(name, consts, path, *, chunks=8, timeout=3000):
         bad = [x for x in r.records if "bad" in x]
         for b in bad:
             b["record"] = json.loads(part[b["bad"] - 1])
+            b["line"] = ixs[b["bad"] - 1]
         if judged != len(part):
             raise MachineryFailure("judge %s: %d of %d records judged" % (name, judged, len(part)))
         return judged, bad
 
     total, bad = 0, []
     with cf.ThreadPoolExecutor(max_workers=chunks) as ex:
-        for j, b in ex.map(one, parts):
+        for j, b in ex.map(one, range(len(parts))):
             total += j
             bad += b
     return total, bad
